@@ -115,8 +115,6 @@ Lemma no_pair_starts a b s : no_pair a b (a :: s) = true -> ~ starts b s.
 Proof.
   intros H [t ->]. cbn [no_pair] in H. rewrite !N.eqb_refl in H. discriminate H.
 Qed.
-Lemma starts_plain b c s : plain b -> In b [9; 10; 13; 32; 34; 39; 92] -> ~ starts b ((c :: nil) ++ s) \/ True.
-Proof. auto. Qed.
 
 (* ====================================================================================== *)
 (* what the printer prints, byte by byte                                                   *)
